@@ -34,7 +34,7 @@ def run(S):
     undecided = sum(c['shapes'] - c['decided'] for c in cov2.values())
     if undecided * 20 > sum(c['shapes'] for c in cov2.values()):
         S.inconclusive.append('deep conservation: %d shapes could not be executed with nested converters real (encoder gaps, see evidence)' % undecided)
-    found3, cov3 = deep.explore(S, deep.DOCS + deep.CODE_DOCS, want=('C01',))
+    found3, cov3 = deep.explore(S, deep.DOCS + deep.CODE_DOCS + deep.EMBED_DOCS, want=('C01',))
     deep.report(S, 'C01', found3)
     if cov3['decided'] < cov3['docs']:
         S.inconclusive.append('deep documents: %r' % (cov3['gaps'][:3],))
